@@ -6,7 +6,7 @@
                    the slots and the appended bytes (whatever else changes before them or is
                    appended later) *)
 From CV Require Import Value.ValueEq Value.EqualM Value.Den Value.DenFacts Value.DenLists Value.CanonSpec Value.CanonM
-                       Value.CanonMData Value.CanonMHeap Value.CanonMLoop Value.CanonMInd Value.CanonMListR Value.CanonMListC.
+                       Value.CanonMData Value.CanonMHeap Value.CanonMLoop Value.CanonMInd Value.CanonMBytes Value.CanonMBlocks.
 From CV Require Import Core.ReaderFacts Core.SafetyProofs Core.BuilderFacts Core.ArithFacts Core.CopySafe Core.WritePtrProofs.
 From CV Require Core.HeapInv.
 From Coq Require Import ZifyBool ZifyNat.
@@ -212,23 +212,23 @@ Lemma sem_loop (step : world -> Z -> res world) (m : segs) (B : Z) (n : nat) (P 
   (forall i D cap rl w', 0 <= i < Z.of_nat n -> hinv D -> B + 8 * Z.of_nat n <= zlen D ->
      step (dstw D cap m rl) i = Ok w' ->
      exists word body cap' rl',
-       w' = dstw (put_word D (B + 8 * i) word ++ body) cap' m rl' /\ hinv (D ++ body) /\
+       w' = dstw (put_word D (B + 8 * i) word ++ body) cap' m rl' /\ hinv (D ++ body) /\ bytes_ok body /\
        forall pre' tail, zlen pre' = zlen D -> word_is pre' (B + 8 * i) word -> P i (pre' ++ body ++ tail)) ->
   forall k, (k <= n)%nat -> forall D cap rl w',
     hinv D -> B + 8 * Z.of_nat n <= zlen D ->
     fold_res (iota k) (dstw D cap m rl) step = Ok w' ->
     exists words kids cap' rl',
-      length words = k /\ w' = dstw (set_slots D B words ++ kids) cap' m rl' /\ hinv (D ++ kids) /\
+      length words = k /\ w' = dstw (set_slots D B words ++ kids) cap' m rl' /\ hinv (D ++ kids) /\ bytes_ok kids /\
       forall pre' tail, zlen pre' = zlen D -> sub pre' B (8 * Z.of_nat k) = bytes_of_words words ->
         forall i, 0 <= i < Z.of_nat k -> P i (pre' ++ kids ++ tail).
 Proof.
   intros HB HBm Hstep. induction k as [|k IH]; intros Hk D cap rl w' Hi Hb H.
   - cbn in H. inversion H; subst. exists [], [], cap, rl. split; [reflexivity|].
     rewrite set_slots_nil by (unfold zlen in *; lia). rewrite !app_nil_r.
-    split; [reflexivity|]. split; [exact Hi|]. intros pre' tail _ _ i Hi0. lia.
+    split; [reflexivity|]. split; [exact Hi|]. split; [constructor|]. intros pre' tail _ _ i Hi0. lia.
   - rewrite iota_S, fold_res_app in H.
     destruct (fold_res (iota k) (dstw D cap m rl) step) as [wk| |] eqn:Ek; try discriminate. cbn [bind] in H.
-    destruct (IH ltac:(lia) D cap rl wk Hi Hb Ek) as (words & kids & cap1 & rl1 & Lw & -> & Hi1 & Post).
+    destruct (IH ltac:(lia) D cap rl wk Hi Hb Ek) as (words & kids & cap1 & rl1 & Lw & -> & Hi1 & Bk & Post).
     cbn [fold_res] in H. destruct (step _ (Z.of_nat k)) as [w2| |] eqn:Es; try discriminate. cbn [bind] in H.
     inversion H; subst w'; clear H.
     assert (Lsl : zlen (set_slots D B words) = zlen D).
@@ -237,14 +237,14 @@ Proof.
     { unfold hinv in *. rewrite zlen_app, Lsl. rewrite zlen_app in Hi1. exact Hi1. }
     destruct (Hstep (Z.of_nat k) _ cap1 rl1 w2 ltac:(lia) Hi1'
                     ltac:(rewrite zlen_app, Lsl; unfold zlen in *; lia) Es)
-      as (word & body & cap2 & rl2 & -> & Hi2 & PostK).
+      as (word & body & cap2 & rl2 & -> & Hi2 & Bb & PostK).
     exists (words ++ [word]), (kids ++ body), cap2, rl2.
     split; [rewrite app_length; cbn [length]; lia|]. split.
     + f_equal. rewrite <- Lw at 1. rewrite put_word_slot by (unfold zlen in *; lia).
       rewrite <- !app_assoc. reflexivity.
     + split.
       * unfold hinv in *. rewrite !zlen_app in *. rewrite Lsl in Hi2. lia.
-      * intros pre' tail Lp Hs i Hi0.
+      * split; [apply Forall_app; split; assumption|]. intros pre' tail Lp Hs i Hi0.
         assert (Lbw : zlen (bytes_of_words words) = 8 * Z.of_nat k) by (unfold zlen; rewrite bow_length; lia).
         assert (Hs1 : sub pre' B (8 * Z.of_nat k) = bytes_of_words words).
         { rewrite (sub_prefix pre' B (8 * Z.of_nat k) 8) by lia.
@@ -272,24 +272,24 @@ Lemma sem_blocks_loop (step : world -> Z -> res world) (m : segs) (B bw : Z) (n 
      step (dstw D cap m rl) i = Ok w' ->
      exists block body cap' rl',
        zlen block = bw /\
-       w' = dstw (set_slots D (B + 8 * bw * i) block ++ body) cap' m rl' /\ hinv (D ++ body) /\
+       w' = dstw (set_slots D (B + 8 * bw * i) block ++ body) cap' m rl' /\ hinv (D ++ body) /\ bytes_ok body /\
        forall pre' tail, zlen pre' = zlen D -> sub pre' (B + 8 * bw * i) (8 * bw) = bytes_of_words block ->
          P i (pre' ++ body ++ tail)) ->
   forall k, (k <= n)%nat -> forall D cap rl w',
     hinv D -> B + 8 * bw * Z.of_nat n <= zlen D ->
     fold_res (iota k) (dstw D cap m rl) step = Ok w' ->
     exists words kids cap' rl',
-      zlen words = bw * Z.of_nat k /\ w' = dstw (set_slots D B words ++ kids) cap' m rl' /\ hinv (D ++ kids) /\
+      zlen words = bw * Z.of_nat k /\ w' = dstw (set_slots D B words ++ kids) cap' m rl' /\ hinv (D ++ kids) /\ bytes_ok kids /\
       forall pre' tail, zlen pre' = zlen D -> sub pre' B (8 * bw * Z.of_nat k) = bytes_of_words words ->
         forall i, 0 <= i < Z.of_nat k -> P i (pre' ++ kids ++ tail).
 Proof.
   intros HB HBm Hbw Hstep. induction k as [|k IH]; intros Hk D cap rl w' Hi Hb H.
   - cbn in H. inversion H; subst. exists [], [], cap, rl. split; [unfold zlen; cbn; lia|].
     rewrite set_slots_nil by (unfold zlen in *; nia). rewrite !app_nil_r.
-    split; [reflexivity|]. split; [exact Hi|]. intros pre' tail _ _ i Hi0. lia.
+    split; [reflexivity|]. split; [exact Hi|]. split; [constructor|]. intros pre' tail _ _ i Hi0. lia.
   - rewrite iota_S, fold_res_app in H.
     destruct (fold_res (iota k) (dstw D cap m rl) step) as [wk| |] eqn:Ek; try discriminate. cbn [bind] in H.
-    destruct (IH ltac:(lia) D cap rl wk Hi Hb Ek) as (words & kids & cap1 & rl1 & Lw & -> & Hi1 & Post).
+    destruct (IH ltac:(lia) D cap rl wk Hi Hb Ek) as (words & kids & cap1 & rl1 & Lw & -> & Hi1 & Bk & Post).
     cbn [fold_res] in H. destruct (step _ (Z.of_nat k)) as [w2| |] eqn:Es; try discriminate. cbn [bind] in H.
     inversion H; subst w'; clear H.
     assert (Hnn : bw * Z.of_nat k + bw <= bw * Z.of_nat n) by nia.
@@ -299,7 +299,7 @@ Proof.
     { unfold hinv in *. rewrite zlen_app, Lsl. rewrite zlen_app in Hi1. exact Hi1. }
     destruct (Hstep (Z.of_nat k) _ cap1 rl1 w2 ltac:(lia) Hi1'
                     ltac:(rewrite zlen_app, Lsl; unfold zlen in *; lia) Es)
-      as (block & body & cap2 & rl2 & Lbk & -> & Hi2 & PostK).
+      as (block & body & cap2 & rl2 & Lbk & -> & Hi2 & Bb & PostK).
     exists (words ++ block), (kids ++ body), cap2, rl2.
     split; [rewrite zlen_app; lia|]. split.
     + f_equal. rewrite set_slots_app_left by (try rewrite Lsl; lia).
@@ -308,7 +308,7 @@ Proof.
       rewrite <- !app_assoc. reflexivity.
     + split.
       * unfold hinv in *. rewrite !zlen_app in *. rewrite Lsl in Hi2. lia.
-      * intros pre' tail Lp Hs i Hi0.
+      * split; [apply Forall_app; split; assumption|]. intros pre' tail Lp Hs i Hi0.
         assert (Lbw : zlen (bytes_of_words words) = 8 * bw * Z.of_nat k) by (unfold zlen in *; rewrite bow_length; lia).
         assert (Lbb : zlen (bytes_of_words block) = 8 * bw) by (unfold zlen in *; rewrite bow_length; lia).
         replace (8 * bw * Z.of_nat (S k)) with (8 * bw * Z.of_nat k + 8 * bw) in Hs by lia.
